@@ -51,7 +51,7 @@ func fatal2(format string, a ...interface{}) int {
 }
 
 func childEnv(info *scen.Info, scratch string, extra ...string) []string {
-	env := os.Environ()
+	env := append(os.Environ(), "GOTRACEBACK=single")
 	if info.Build == "race" {
 		env = append(env, "GORACE=halt_on_error=1 exitcode=66 log_path="+filepath.Join(scratch, "race"))
 	}
@@ -233,7 +233,7 @@ func runLeg(l leg, tier string, batch uint64, workers int, scratch string) (*leg
 			}
 			continue
 		}
-		if exitCode == 2 {
+		if exitCode == 3 {
 			return nil, fatal2("worker %d of %s reported a harness error:\n%s", i, l.scenario, tail(p.se.String(), 3000))
 		}
 		// The worker PROCESS died. Attribute it through the status page.
